@@ -84,6 +84,7 @@ FOR = {
     "C05": ["echo_shutdown", "unp_arg_del", "pending_del", "nowait_shutdown", "exit_with_pending", "resize_grow_old_worker_killed"],
     "C06": ["kill_shutdown"],
     "C07": ["timeout0_seq", "timeout_small_seq", "partial_pool_respawn"],
+    "C08": ["timeout0_seq", "timeout_small_seq", "partial_pool_respawn"],
     "C09": ["reusable_crash_get", "resize_idle_kill_probe", "resize_grow_old_worker_killed"],
     "C10": ["reusable_resize", "resize_grow_new_worker_dies", "resize_grow_old_worker_killed"],
 }
